@@ -113,6 +113,34 @@ a \ominus b == WSub(a, b)
 a \prec b == WLt(a, b)
 a \preceq b == WLe(a, b)
 
+\* decimal rendering as a sequence of ASCII codes ("-" = 45, "0" = 48)
+Limb4(x) == <<48 + (x \div 1000), 48 + ((x \div 100) % 10), 48 + ((x \div 10) % 10), 48 + (x % 10)>>
+RECURSIVE StripZeros(_)
+StripZeros(d) == IF Len(d) > 1 /\ d[1] = 48 THEN StripZeros(Tail(d)) ELSE d
+RECURSIVE MagDec(_, _)
+MagDec(m, i) == IF i = 0 THEN <<>> ELSE Limb4(m[i]) \o MagDec(m, i - 1)       \* most significant limb first
+WDecMag(w) == IF IsZero(w) THEN <<48>> ELSE StripZeros(MagDec(Mag(w), Len(Mag(w))))
+WDec(w) == IF w[1] = -1 THEN <<45>> \o WDecMag(w) ELSE WDecMag(w)
+RECURSIVE Zeros(_)
+Zeros(n) == IF n <= 0 THEN <<>> ELSE <<48>> \o Zeros(n - 1)
+\* magnitude digits left-padded with zeros to at least `width` digits
+WDecPad(w, width) == LET d == WDecMag(w) IN Zeros(width - Len(d)) \o d
+\* 10^k as a wide (k >= 0)
+RECURSIVE Pow10(_)
+Pow10(k) == IF k = 0 THEN W(1) ELSE IF k >= 4 THEN Mk(1, <<0>> \o Mag(Pow10(k - 4))) ELSE WMulSmall(Pow10(k - 1), 10)
+\* floor division of a wide by a positive wide (by repeated doubling; for the few places where the
+\* divisor is not small); returns <<quotient, remainder>>, remainder in 0..b-1
+RECURSIVE WDivPos(_, _)
+WDivPos(a, b) ==      \* a >= 0, b > 0
+  IF WLt(a, b) THEN <<WZero, a>>
+  ELSE LET r == WDivPos(a, WMulSmall(b, 2))        \* a = q2 * 2b + r2
+           q == WMulSmall(r[1], 2)
+       IN  IF WLt(r[2], b) THEN <<q, r[2]>> ELSE <<WAdd(q, W(1)), WSub(r[2], b)>>
+WFloorDiv(a, b) ==    \* b > 0
+  IF a[1] = 1 THEN WDivPos(a, b)
+  ELSE LET r == WDivPos(WNeg(a), b) IN
+       IF IsZero(r[2]) THEN <<WNeg(r[1]), WZero>> ELSE <<WNeg(WAdd(r[1], W(1))), WSub(b, r[2])>>
+
 \* the 64-bit limits
 I64Max == <<1, 5807, 5477, 368, 3372, 922>>        \*  9223372036854775807
 I64Min == <<-1, 5808, 5477, 368, 3372, 922>>       \* -9223372036854775808
